@@ -552,6 +552,47 @@ fn gen_hostx(rng: &mut Rng, tier: Tier) -> Vec<String> {
     out
 }
 
+/// Does the workload contain a writer epoch (ops between two restarts, or before the first one) in which
+/// nothing can have been committed, followed later by an operation that writes frames? Commits: a submission
+/// not acknowledged before (fault none / after-marker-sync), a tick of a worldline with a staged submission.
+fn has_empty_epoch_before_commit(ops: &[Op]) -> bool {
+    let mut acked = [false; NW];
+    let mut staged = [false; NW];
+    let mut epoch_commits = 0usize;
+    let mut empty_epoch_seen = false;
+    for op in ops {
+        match op {
+            Op::Kill => {
+                if epoch_commits == 0 {
+                    empty_epoch_seen = true;
+                }
+                epoch_commits = 0;
+            }
+            Op::Submit(i, f) => {
+                // frames reach the log for every fault except a failing first frame append
+                if *f != b'a' && !acked[*i] && empty_epoch_seen {
+                    return true;
+                }
+                if matches!(f, b'-' | b'm') && !acked[*i] {
+                    acked[*i] = true;
+                    staged[*i] = true;
+                    epoch_commits += 1;
+                }
+            }
+            Op::Tick(i, f) => {
+                if *f != b'a' && staged[*i] && empty_epoch_seen {
+                    return true;
+                }
+                if matches!(f, b'-' | b'm') && staged[*i] {
+                    staged[*i] = false;
+                    epoch_commits += 1;
+                }
+            }
+        }
+    }
+    false
+}
+
 fn oracle_hostx(t: &mut Toks, _: Tier) -> Result<OracleOut, String> {
     let ops = parse_ops(t)?;
     let root = Scratch::new("host-x");
@@ -563,7 +604,17 @@ fn oracle_hostx(t: &mut Toks, _: Tier) -> Result<OracleOut, String> {
             o.tags.push("survived".into());
         }
         Err(e) => {
-            let key = if e.contains("LsnContinuityMismatch") { "C10.host.wal-unrecoverable-after-empty-epoch" } else { "C10.host.recovery-failed.other" };
+            // Known finding C10-K1 needs a writer epoch that committed nothing, followed by a commit. An LSN gap
+            // without such an epoch in the workload is a different defect and must not hide behind K1.
+            let key = if e.contains("LsnContinuityMismatch") {
+                if has_empty_epoch_before_commit(&ops) {
+                    "C10.host.wal-unrecoverable-after-empty-epoch"
+                } else {
+                    "C10.host.wal-unrecoverable.lsn-gap-without-empty-epoch"
+                }
+            } else {
+                "C10.host.recovery-failed.other"
+            };
             o.fails.push((key.into(), format!("reopening the WAL fails: {e}")));
         }
     }
